@@ -16,8 +16,9 @@ def ser(cites):
              "meta": sorted((k, str(v)) for k, v in c.metadata.__dict__.items())}
         if isinstance(c, ResourceCitation):
             d["year"] = c.year
-            d["exact"] = sorted(f"{e.reporter.short_name}/{e.short_name}/{e.start}" for e in c.exact_editions)
-            d["var"] = sorted(f"{e.reporter.short_name}/{e.short_name}/{e.start}" for e in c.variation_editions)
+            # candidate editions in the ORDER of the attribute (a tuple): part of the result (C15)
+            d["exact"] = [f"{e.reporter.short_name}/{e.short_name}/{e.start}" for e in c.exact_editions]
+            d["var"] = [f"{e.reporter.short_name}/{e.short_name}/{e.start}" for e in c.variation_editions]
             g = c.edition_guess
             d["guess"] = f"{g.reporter.short_name}/{g.short_name}" if g else None
         value_hash = not isinstance(c, (IdCitation, UnknownCitation)) and not (
